@@ -7,6 +7,7 @@ import re
 from ..core.absint import AV, Alt, App, Const, DictV, ListV, Obj, State, Sym, walk_av
 from ..core.ctx import TYPES_MOD, Ctx
 from ..core.report import Collector
+from .common import find_loops, fmt_facts, new_effects, run_body
 
 
 def _syms(v: AV, prefix: str) -> set[str]:
@@ -194,6 +195,41 @@ def check(ctx: Ctx, col: Collector, tier: str) -> None:
                     col.bad("C19.NESTED-PARSE", nkey, repo.loc(tm, from_fi.node), f"argument {av!r}",
                             f"{k}.from_dict passes the serialised value of {f!r} (annotated {ann}) unconverted: the "
                             f"rebuilt value is not a frozenset (unhashable / unequal after round trip)")
+
+    # ---------------------------------------------------------------- NESTED-PARSE: element-wise means one output element per input element
+    for k in classes:
+        ffi = tm.classes[k].methods.get("from_dict")
+        if ffi is None:
+            continue
+        fit = ctx.interp(ffi)
+        fit.run_function(ffi, {"cls": Sym("cls"), "d": Sym("d")})
+        for node, itv, el, entry in find_loops(fit, ffi, lambda v: isinstance(v, Sym) and v.path.startswith("d[")):
+            skipped = []
+            n_paths = 0
+            # a later iteration: the accumulators the body appends to hold the results of the earlier entries
+            later = entry.clone()
+            for x in ast.walk(node):
+                if isinstance(x, ast.Call) and isinstance(x.func, ast.Attribute) and x.func.attr in ("append", "add") and isinstance(x.func.value, ast.Name):
+                    later.env[x.func.value.id] = Sym(f"{x.func.value.id}@earlier-entries")
+            for o in run_body(fit, node, later, Sym("ELEM")):
+                if o.kind == "raise":
+                    continue
+                n_paths += 1
+                eff = new_effects(o, entry)
+                appended = [e for e in eff if e.kind in ("mutate", "call") and e.target.endswith((".append", ".add"))]
+                facts = list(o.facts)[len(entry.facts):]
+                is_none = any(("==None" in fk or "None==" in fk) and fv for fk, fv in facts)
+                if not appended and not is_none:
+                    skipped.append(fmt_facts(facts)[:120])
+            if not n_paths:
+                continue
+            nkey = f"{TYPES_MOD}::{k}.from_dict::one-element-per-entry::{itv.path if isinstance(itv, Sym) else 'loop'}"
+            if skipped:
+                col.bad("C19.NESTED-PARSE", nkey, repo.loc(tm, node), f"an entry is dropped under: {skipped[0]}",
+                        f"{k}.from_dict skips an entry of the serialised list although it parsed to a value ({skipped[0][:80]}): a value with such entries (e.g. a union with two equal members, "
+                        f"which __eq__ counts) does not survive the round trip")
+            else:
+                col.ok("C19.NESTED-PARSE", nkey, repo.loc(tm, node), f"{n_paths} paths: every parsed entry is appended")
 
     # ---------------------------------------------------------------- EQ-HASH
     for k in classes:
